@@ -192,6 +192,22 @@ def part_exit_status(fx):
                     C.violation("exit-status|%s" % ("zero-despite-failures" if rc == 0 else "nonzero-despite-all-good"),
                                 "composition %s (1=good) via %s: exit status %d" % ("".join(map(str, comp)), "stdin" if via else "argv", rc))
             C.nontrivial()
+    # empty tokens (a blank line on standard input, an empty argument) between real ones: whatever the tool makes of the empty
+    # token itself, a failing token anywhere in the list still makes the exit status non-zero
+    for n in (2, 3, 4):
+        for via in (False, True):
+            if not C.case("jwt-verify with every good/bad/empty composition of %d tokens (%s)" % (n, "stdin" if via else "arguments")):
+                continue
+            for comp in itertools.product((0, 1, 2), repeat=n):
+                if 2 not in comp:
+                    continue
+                toks = ["" if g == 2 else (good[i % len(good)] if g else bad[i % len(bad)]) for i, g in enumerate(comp)]
+                rc = verify_list(fx, toks, via)
+                C.obs((rc == 0, 0 in comp))
+                if 0 in comp and rc == 0:
+                    C.violation("exit-status|zero-despite-failures|empty-token-in-list",
+                                "composition %s (1=good, 0=bad, 2=empty) via %s: exit status 0 although a supplied token fails" % ("".join(map(str, comp)), "stdin" if via else "argv"))
+            C.nontrivial()
     # long tokens (longer than the tools' line buffer), valid and invalid, alone and between ordinary ones
     for size in ((9000, 70000) if C.tier == "thorough" else (9000,)):
         rc, out, err = run([tool("jwt-generate"), "-q", "-k", fx["oct_alg"], "-c", "s:pad=" + "p" * size])
